@@ -624,3 +624,63 @@ static void run_c05_rejected_free(void)
     wl_rt_stop(rt);
 }
 SIM_WORKLOAD("C05", "rejected-free", run_c05_rejected_free, 2)
+
+/* ---- scenario "many-sleepers": N external threads sleep in ABT_cond_wait (they all sleep on the
+ * wait list's one futex word); one broadcast under the mutex releases every one of them, however
+ * many there are.  N is mostly small; now and then 120..200. ---- */
+static struct {
+    wl_rt rt;
+    ABT_mutex m;
+    ABT_cond cv;
+    int n;
+    volatile int waiting, returned, pred;
+} MS;
+static void ms_waiter(void *arg)
+{
+    (void)arg;
+    ABT_OK(ABT_mutex_lock(MS.m));
+    MS.waiting++;
+    sim_progress();
+    while (!MS.pred)
+        ABT_OK(ABT_cond_wait(MS.cv, MS.m));
+    MS.returned++;
+    ABT_OK(ABT_mutex_unlock(MS.m));
+    sim_progress();
+}
+static void ms_diag(char *buf, int sz)
+{
+    snprintf(buf, (size_t)sz, "many-sleepers: n=%d waiting=%d returned=%d ", MS.n, MS.waiting, MS.returned);
+}
+static void run_c05_many_sleepers(void)
+{
+    memset(&MS, 0, sizeof MS);
+    sim_set_diag_cb(ms_diag);
+    wl_rt *rt = &MS.rt;
+    wl_rt_start(rt, WL_RT_NO_TOPO2);
+    ABT_OK(ABT_mutex_create(&MS.m));
+    ABT_OK(ABT_cond_create(&MS.cv));
+    const void *wlst = wb_cond_waitlist(MS.cv);
+    int deep = plan_n(sim_tier() ? 40 : !strcmp(sim_variant(), "VP") ? 2000 : 150) == 0;
+    MS.n = deep ? plan_range(120, 200) : plan_range(1, 8);
+    sim_note("C05 many-sleepers n=%d: ", MS.n);
+    static int tid[256];
+    for (int i = 0; i < MS.n; i++)
+        tid[i] = sim_thread_create(ms_waiter, NULL);
+    /* all of them are on the list (white-box: the reference model of M-waitlist) */
+    while (wb_waitlist_len(wlst) < MS.n)
+        ABT_OK(ABT_thread_yield());
+    ABT_OK(ABT_mutex_lock(MS.m));
+    MS.pred = 1;
+    ABT_OK(ABT_cond_broadcast(MS.cv));
+    ABT_OK(ABT_mutex_unlock(MS.m));
+    sim_progress();
+    for (int i = 0; i < MS.n; i++)
+        sim_thread_join(tid[i]);
+    SIM_CHECK(MS.returned == MS.n, "cond:wakeup-count", "%d of %d sleeping waiters returned after the broadcast", MS.returned, MS.n);
+    if (MS.n >= 120)
+        sim_count("c05.broadcasts_to_more_than_100_sleepers", 1);
+    ABT_OK(ABT_cond_free(&MS.cv));
+    ABT_OK(ABT_mutex_free(&MS.m));
+    wl_rt_stop(rt);
+}
+SIM_WORKLOAD("C05", "many-sleepers", run_c05_many_sleepers, 1)
